@@ -4,7 +4,7 @@ from __future__ import annotations
 import math
 import random
 
-from pbv import core, loopsuite, scen, shots
+from pbv import core, lattice, loopsuite, scen, shots
 
 
 def scenarios(rng: random.Random, n: int, thorough: bool):
@@ -61,6 +61,7 @@ def run(chk: core.Check, replay=None) -> None:
     import py_ballisticcalc as m
     thorough = chk.tier == "thorough"
     loopsuite.design(chk, "C15")
+    lattice.replay(chk, "C15", thorough)          # exact spec -> code replay of whole fire() results
     behs = loopsuite.gen_behaviours(chk, 3000 if thorough else 400, chk.seed + 15)
     loopsuite.object_replay(chk, "C15", behs)
     rng = random.Random(chk.seed * 17 + 15)
